@@ -33,7 +33,7 @@ for i,m in enumerate(muts):
         if suite:
             t=subprocess.run(['go','test','-vet=off','-count=1','./...'],cwd=S,env=env,capture_output=True,text=True)
             st=' suite=pass' if t.returncode==0 else ' suite=FAIL'
-        c=subprocess.run([os.path.join(here,'..','check'),m['prop'],tier],env=dict(env,VERIF_REPO=S),capture_output=True,text=True)
+        c=subprocess.run([os.path.join(here,'..','check'),m['prop'],tier],env=dict(env,VERIF_REPO=S,VERIF_OUT_DIR=os.path.join(S,'zz_verif_out')),capture_output=True,text=True)
         sig=[l.strip() for l in c.stdout.split('\n') if 'signature=' in l][:1]
         verdict='CAUGHT' if c.returncode==1 else ('MISSED' if c.returncode==0 else f'EXIT{c.returncode}')
         print(f"{m['prop']} #{i} {verdict}{st} {m['what']} | {sig[0][:110] if sig else ''}",flush=True)
